@@ -3,6 +3,7 @@ package main
 // govc check: decide one property on /repo's working tree.
 
 import (
+	"os/exec"
 	"runtime/pprof"
 	"crypto/sha256"
 	"encoding/json"
@@ -29,8 +30,22 @@ type propConfig struct {
 	// functional obligations are discharged by those properties' checks and
 	// are assumed in this one)
 	SafetyOnly bool
-	Explain    string
+	// Bounded stand-ins: exhaustive/bounded tests of the real code for
+	// functions outside the generator's reach; reported as "bounded", never
+	// counted as proved
+	Bounded []boundedCheck
+	Explain string
 	Assume     []string
+}
+
+type boundedCheck struct {
+	Name    string // label in evidence
+	Pkg     string // package directory relative to the repository
+	Source  string // test source under /verif/bounded
+	Target  string // file name injected into the package (overlay)
+	Run     string // -run pattern
+	Bound   string // the stated bound
+	Stands  string // the contract clause it stands in for
 }
 
 type knownFinding struct {
@@ -245,11 +260,11 @@ func cmdCheck(args []string) {
 			v.sweepMode = con == nil
 			u := v.verifyFunc(fn, con)
 			v.sweepMode = false
-			if con != nil && cfg.SafetyOnly {
+			if con != nil && cfg.SafetyOnly && *tier != "thorough" {
 				var keep []*Obligation
 				for _, o := range u.Obls {
 					switch o.Kind {
-					case "nopanic", "pre", "fieldinv", "mapinv", "chaninv", "typestate", "captures", "contract-binding":
+					case "nopanic", "nohang", "pre", "fieldinv", "mapinv", "chaninv", "typestate", "captures", "contract-binding":
 						keep = append(keep, o)
 					}
 				}
@@ -343,6 +358,15 @@ func cmdCheck(args []string) {
 			report(s.Name, "structural obligation failed: "+s.Detail, s.Detail, nil, nil, nil)
 		}
 	}
+	// bounded stand-ins
+	var boundedEv []any
+	for _, bc := range cfg.Bounded {
+		ok, out := runBounded(*repo, bc)
+		boundedEv = append(boundedEv, map[string]any{"name": bc.Name, "stands_in_for": bc.Stands, "bound": bc.Bound, "passed": ok, "how": "go test -overlay (injected into " + bc.Pkg + ", nothing written to the repository) -run " + bc.Run})
+		if !ok {
+			report("bounded["+bc.Name+"]", "bounded check of the real code failed (bound: "+bc.Bound+")", out, nil, nil, nil)
+		}
+	}
 	// vacuity: obligations must exist
 	if nObl == 0 {
 		report("vacuity[no-obligations]", "no obligation was generated for this property", "", nil, nil, nil)
@@ -412,7 +436,7 @@ func cmdCheck(args []string) {
 		"solver_seconds_total":     round2(solverS),
 		"solver_seconds_max":       round2(maxS),
 		"unclaimed":                unclaimed,
-		"bounded":                  []string{},
+		"bounded":                  boundedEv,
 		"vacuity":                  map[string]any{"covers_checked": countCovers(results), "covers_failed": vacuityFail},
 		"samples":                  samples,
 		"known_findings_hit":       kfHits,
@@ -423,6 +447,9 @@ func cmdCheck(args []string) {
 	}
 	if len(cfg.Sweep) > 0 {
 		cov["sweep"] = map[string]any{"functions_without_contract": nSweep, "contract_functions_safety_obligations_only": nSafetyOnly, "packages": cfg.Sweep, "skipped": cfg.SweepSkip}
+	}
+	if *tier == "thorough" && !*noEvidence && *repo == "/repo" {
+		cov["selftest_seeded_defects"] = runSeededSelfTest(*prop)
 	}
 	ev := evidence{PropertyID: *prop, Tier: *tier, Seed: seed, Level: level, Coverage: cov, Assumptions: assumptions, WallS: round2(time.Since(t0).Seconds()), Violations: len(violations)}
 	if !*noEvidence {
@@ -628,3 +655,81 @@ func (v *Verifier) checkBaseline(prop string, results []oblResult, structRes []s
 }
 
 var _ = ssa.NaiveForm
+
+// runBounded injects a test file into a package of the repository with
+// go test -overlay and runs it.
+func runBounded(repo string, bc boundedCheck) (bool, string) {
+	src := filepath.Join(verifDir(), "bounded", bc.Source)
+	if _, err := os.Stat(src); err != nil {
+		return false, "bounded test source missing: " + src
+	}
+	dir, err := os.MkdirTemp("", "govc-bounded-")
+	if err != nil {
+		return false, err.Error()
+	}
+	defer os.RemoveAll(dir)
+	ov := map[string]any{"Replace": map[string]string{filepath.Join(repo, bc.Pkg, bc.Target): src}}
+	data, _ := json.Marshal(ov)
+	ovPath := filepath.Join(dir, "ov.json")
+	os.WriteFile(ovPath, data, 0o644)
+	cmd := exec.Command(goBin(), "test", "-overlay", ovPath, "-vet=off", "-count=1", "-timeout", "300s", "-run", bc.Run, "./"+bc.Pkg)
+	cmd.Dir = repo
+	out, err := cmd.CombinedOutput()
+	return err == nil, truncate(string(out), 4000)
+}
+
+// runSeededSelfTest (thorough tier): every seeded defect kept under
+// /verif/seeded for this property is applied to a scratch copy of the
+// repository and the quick check is run on it; a seed that is not reported is
+// a weakness of the contracts and is listed in the evidence (it is not a
+// property violation of the unchanged tree, so it does not change the exit code).
+func runSeededSelfTest(prop string) map[string]any {
+	res := map[string]any{}
+	dirs, _ := filepath.Glob(filepath.Join(verifDir(), "seeded", "*"))
+	sort.Strings(dirs)
+	var caught, missed []string
+	for _, d := range dirs {
+		data, err := os.ReadFile(filepath.Join(d, "meta.json"))
+		if err != nil {
+			continue
+		}
+		var meta struct {
+			Property string `json:"property"`
+		}
+		if json.Unmarshal(data, &meta) != nil || meta.Property != prop {
+			continue
+		}
+		base := os.Getenv("VERIF_SCRATCH")
+		if base == "" {
+			base = os.TempDir()
+		}
+		scratch, err := os.MkdirTemp(base, "govc-seed-")
+		if err != nil {
+			continue
+		}
+		ok := func() bool {
+			defer os.RemoveAll(scratch)
+			if out, err := exec.Command("cp", "-r", "/repo/.", scratch).CombinedOutput(); err != nil {
+				fmt.Println("selftest: copy failed:", string(out))
+				return false
+			}
+			os.RemoveAll(filepath.Join(scratch, ".git"))
+			exec.Command("git", "-C", scratch, "init", "-q").Run()
+			if out, err := exec.Command("git", "-C", scratch, "apply", "--whitespace=nowarn", filepath.Join(d, "patch.diff")).CombinedOutput(); err != nil {
+				fmt.Println("selftest: patch does not apply:", filepath.Base(d), string(out))
+				return false
+			}
+			out, _ := exec.Command(os.Args[0], "check", "-property", prop, "-tier", "quick", "-no-evidence", "-repo", scratch).CombinedOutput()
+			return strings.Contains(string(out), "\nVIOLATION ") || strings.HasPrefix(string(out), "VIOLATION ")
+		}()
+		if ok {
+			caught = append(caught, filepath.Base(d))
+		} else {
+			missed = append(missed, filepath.Base(d))
+			fmt.Println("SELFTEST-MISS: seeded defect", filepath.Base(d), "is not reported by the check of", prop)
+		}
+	}
+	res["caught"] = caught
+	res["missed"] = missed
+	return res
+}
